@@ -49,3 +49,9 @@ Example first_failure_wins_nonvacuous :
               LDone 2%N (OFail (EObjFunc 8)) true; LDone 3%N (OVal (-1)%Z) true]
   with Ret c r => r = RErr (EObjFunc 7) /\ length (c_started c) = 4 | _ => False end.
 Proof. vm_compute. repeat split. Qed.
+
+(** the three arms of [evaluate]'s select, as [Cli.pstep] models them: the child's result as it is;
+    at the per-evaluation limit and on the abort request the group is killed and reaped and the
+    evaluation returns as rejected at once, whoever still holds the output pipes (shape
+    regenerated from the source) *)
+Example evaluate_arms_shape : evaluate_arms_kill_reap_return = true.  Proof. reflexivity. Qed.
